@@ -31,6 +31,12 @@ Proof. exact revoke_then_dispatch. Qed.
 Theorem revoke_twice : forall (s : ent) (t : trigger) (w : world), wf_tables w -> distinct_regs w ->
   regs (revoke_one s t (revoke_one s t w)) = regs (revoke_one s t w).
 Proof. exact revoke_idempotent. Qed.
+(* a whole token (every trigger of one registration call): exactly the registrations it names are gone, the rest stay in
+   order, and tables stay well formed and duplicate-free *)
+Theorem revoking_a_token_is_exact : forall (s : ent) (ts : list trigger) (w : world), wf_tables w -> distinct_regs w ->
+  regs (revoke_all s ts w) = filter (fun x => negb (existsb (fun t => named s t x) ts)) (regs w)
+  /\ wf_tables (revoke_all s ts w) /\ distinct_regs (revoke_all s ts w).
+Proof. exact revoke_all_distinct. Qed.
 (* revocation keeps the tables well formed (so all of C01 applies afterwards) *)
 Theorem revoke_keeps_wf : forall (s : ent) (ts : list trigger) (w : world), wf_tables w -> wf_tables (revoke_all s ts w).
 Proof. intros s ts w. apply wf_revoke_all. Qed.
@@ -58,4 +64,5 @@ Print Assumptions revoke_is_complete.
 Print Assumptions revoke_is_local.
 Print Assumptions revoke_is_immediate.
 Print Assumptions revoke_twice.
+Print Assumptions revoking_a_token_is_exact.
 Print Assumptions revoke_keeps_wf.
